@@ -75,7 +75,7 @@ def run(ctx):
                        "shape, leaves {1}, directory data {0,100} (own data of any directory, root included, may differ; 157216 "
                        "pairs, seed-chosen slice 1/16 quick, 1/8 thorough) + family B: leaves {1}, directory data {0}, CID builders "
                        "{0,1} on every node (5618 trees, ~590 000 one-edit pairs incl. builder-only changes of leaves, empty and "
-                       "populated directories, root; slice 1/64 quick, 1/16 thorough) + seeded random pairs depth 4 / fan-out 6 with "
+                       "populated directories, root; slice 1/64 quick, 1/32 thorough) + seeded random pairs depth 4 / fan-out 6 with "
                        "directory metadata and 3 CID builders (node or whole subtree rebuilt with another builder); non-trivial = a case with at least one reported change")
     ctx.open_devs()          # load the known findings before any worker thread asks for them
     ctx.specdir("DagDiff")
@@ -101,7 +101,7 @@ def run(ctx):
     # ---------------- G : enumerate cases (plain family; family D: directories carry their own data, root included;
     # family B: every node carries a CID builder; D and B: a slice of the source trees chosen by the seed)
     cfgD = sharded_cfg(ctx, "GenDagDiffD.cfg", ctx.seed, 16 if q else 8)
-    cfgB = sharded_cfg(ctx, "GenDagDiffB.cfg", ctx.seed, 64 if q else 16)
+    cfgB = sharded_cfg(ctx, "GenDagDiffB.cfg", ctx.seed, 64 if q else 32)
     _, cases, casesD, casesB, binp = parallel(
         phase_m,
         lambda: ctx.tlc_gen("DagDiff", "GenDagDiff.tla", "GenDagDiff.cfg", timeout=1200),
